@@ -298,10 +298,13 @@ def r05c(ctx):
     for (b, si, k, e) in a.ret_sites():
         if k != 'ok':
             continue
-        v = e[3][0][1]
-        if v[0] == 'agg' and v[2].endswith('Option::None'):
-            continue
-        somes.append((b, si, v))
+        # (a single result variable assigned in several places is expanded into its assignments)
+        for (sb, ssi, v) in a.flow.sources(e[3][0][1], (b, si)):
+            while v[0] == 'agg' and v[2].endswith('Result::Ok') and len(v[3]) == 1:
+                v = v[3][0][1]
+            if v[0] == 'agg' and v[2].endswith('Option::None'):
+                continue
+            somes.append((sb if sb is not None else b, ssi if sb is not None else si, v))
     n = 0
     for (b, si, v) in somes:
         rc = None
